@@ -215,10 +215,10 @@ def run_unit(res, rng, tier):
 KEYS = ["KA", "KB", "KC", "KD"]
 
 
-def gen_section(rng, sec, tier, allow_removal=True):
+def gen_section(rng, sec, tier, allow_removal=True, long=False):
     """one table section: frame with tagged cells + body/header configuration"""
     ncol = rng.choice([1, 2, 2, 3, 3, 4, 4, 5, 6, 7, 8, 10, 12])
-    nrows = rng.randint(1, 7)
+    nrows = rng.randint(9, 16) if long else rng.randint(1, 7)
     mode = "plain"
     if allow_removal and ncol >= 2:
         mode = rng.choice(["plain", "plain", "page_by", "page_by", "page_by_np_col", "page_by_np_first", "subline",
@@ -314,7 +314,10 @@ def gen_section(rng, sec, tier, allow_removal=True):
 def gen_doc(rng, tier):
     multi = rng.random() < 0.22
     nsec = rng.choice([2, 2, 3]) if multi else 1
-    sections = [gen_section(rng, s, tier) for s in range(nsec)]
+    # some multi-section documents run every section over several pages (headers repeat on the continuation pages
+    # of EVERY section, each with its own cell boundaries)
+    long = multi and rng.random() < 0.45
+    sections = [gen_section(rng, s, tier, long=long) for s in range(nsec)]
     page = {}
     if rng.random() < 0.4:
         page["orientation"] = "landscape"
@@ -322,6 +325,8 @@ def gen_doc(rng, tier):
         page["col_width"] = gen_table_width(rng)
     if rng.random() < 0.5:
         page["nrow"] = rng.randint(4, 12)
+    if long:
+        page["nrow"] = rng.randint(5, 8)
     fn = src = None
     if rng.random() < 0.55:
         fn = dict(text="FOOTNOTE-TXT")
@@ -572,6 +577,14 @@ def judge_doc(res, case, ob, exps, drvs):
             else:
                 res.disagree(case, why)
         return
+    # "header rows line up with the data columns THEY LABEL": the rows of one table section form one contiguous run, in
+    # section order — a header row of an earlier section among the rows of a later one labels columns that are not its own
+    secs = [r["sec"] for r in ob["rows"]]
+    for a, b, r in zip(secs, secs[1:], ob["rows"][1:]):
+        if b < a:
+            res.fail(case, f"a {r['kind']} row of section {b} ({r['text0']!r}, boundaries {r['cellx']}) is rendered among "
+                           f"the rows of section {a}: it labels columns that are not its own")
+            return
     for si, (exp, d) in enumerate(zip(exps, drvs)):
         if d.get("viol"):
             v = d["viol"][:4]
